@@ -84,11 +84,16 @@ struct Case {
     repeat: usize,
     /// seed of the per-evaluation inputs
     input_seed: u64,
+    /// every evaluation gets the same input (equal function arguments in flight at the same time)
+    same_input: bool,
+    /// (tokio only) every other task is aborted while it is suspended; afterwards every input is evaluated again
+    abort_half: bool,
 }
 
 /// every evaluation has its own input: an id plus typed fields with evaluation-specific values (strings that parse as
 /// date-times, numbers, lists), so that concurrent evaluations convert / compute different things at the same time
 fn facts_for(c: &Case, id: usize) -> Value {
+    let id = if c.same_input { 0 } else { id };
     let mut bytes = vec![];
     let mut x = c.input_seed ^ (id as u64 + 1).wrapping_mul(0x9E3779B97F4A7C15);
     for _ in 0..40 {
@@ -164,6 +169,8 @@ fn gen_case(bytes: &[u8]) -> Case {
         raw_threads: d.bool(),
         repeat: *d.pick(&[1usize, 1, 3, 20]),
         input_seed: d.u64(),
+        same_input: d.below(4) == 3,
+        abort_half: d.below(5) == 4,
     }
 }
 
@@ -173,7 +180,7 @@ fn heavy_cases(seed: u64) -> Vec<Case> {
     let call = |f: &str, k: i128| Expr::func(f, Expr::Vec(vec![Expr::reff("id"), Expr::value(k)]));
     let mut fns = BTreeMap::new();
     for (i, name) in ["fa", "fb", "fc", "fd"].iter().enumerate() {
-        fns.insert(name.to_string(), me::FnSpec { cacheable: i % 2 == 0 || *name == "fd", fail_on: vec![], fail_first: 0 });
+        fns.insert(name.to_string(), me::FnSpec { cacheable: i % 2 == 0 || *name == "fd", fail_on: vec![], fail_first: 0, uncacheable_after: 0 });
     }
     let nest = |mut e: Expr, depth: usize| {
         for i in 0..depth {
@@ -200,6 +207,8 @@ fn heavy_cases(seed: u64) -> Vec<Case> {
             raw_threads: raw,
             repeat: 1,
             input_seed: seed,
+            same_input: n == 96,
+            abort_half: false,
         });
     }
     // (B)
@@ -214,13 +223,16 @@ fn heavy_cases(seed: u64) -> Vec<Case> {
             raw_threads: raw,
             repeat: 25,
             input_seed: seed ^ 0x55,
+            same_input: false,
+            abort_half: false,
         });
     }
     out
 }
 
 fn case_json(c: &Case) -> serde_json::Value {
-    json!({"spec": spec_to_json(&c.spec), "n": c.n, "raw_threads": c.raw_threads, "repeat": c.repeat, "input_seed": c.input_seed.to_string()})
+    json!({"spec": spec_to_json(&c.spec), "n": c.n, "raw_threads": c.raw_threads, "repeat": c.repeat, "input_seed": c.input_seed.to_string(),
+        "same_input": c.same_input, "abort_half": c.abort_half})
 }
 
 fn case_from_json(j: &serde_json::Value) -> Option<Case> {
@@ -230,6 +242,8 @@ fn case_from_json(j: &serde_json::Value) -> Option<Case> {
         raw_threads: j.get("raw_threads")?.as_bool()?,
         repeat: j.get("repeat").and_then(|x| x.as_u64()).unwrap_or(1) as usize,
         input_seed: j.get("input_seed").and_then(|x| x.as_str()).and_then(|s| s.parse().ok()).unwrap_or(0),
+        same_input: j.get("same_input").and_then(|x| x.as_bool()).unwrap_or(false),
+        abort_half: j.get("abort_half").and_then(|x| x.as_bool()).unwrap_or(false),
     })
 }
 
@@ -246,7 +260,7 @@ fn check(rt: &tokio::runtime::Runtime, c: &Case, overlap_seen: &AtomicUsize) -> 
         base.log.lock().unwrap().clear();
         let out = catch(|| detach(block_on(base.ruleset.evaluate_value(&facts_for(c, k))).expect("evaluate_value")))
             .map_err(|p| Issue::new("threads:panic", format!("sequential baseline evaluation panicked: {p}; {}", case_json(c))))?;
-        let log = attributed(&base.log.lock().unwrap(), k);
+        let log = attributed(&base.log.lock().unwrap(), if c.same_input { 0 } else { k });
         baselines.push((out, log));
     }
     let built = probe::build(&c.spec, !c.raw_threads);
@@ -294,17 +308,72 @@ fn check(rt: &tokio::runtime::Runtime, c: &Case, overlap_seen: &AtomicUsize) -> 
                     })
                 })
                 .collect();
+            if c.abort_half {
+                // let the tasks get going, then cancel every other one wherever it is suspended
+                for _ in 0..3 {
+                    tokio::task::yield_now().await;
+                }
+                for (k, h) in handles.iter().enumerate() {
+                    if k % 2 == 1 {
+                        h.abort();
+                    }
+                }
+            }
             let mut v = vec![];
             for h in handles {
-                v.push(h.await.map_err(|e| format!("task failed: {e}")));
+                v.push(match h.await {
+                    Ok(o) => Ok(o),
+                    Err(e) if e.is_cancelled() => Ok(vec![]),
+                    Err(e) => Err(format!("task failed: {e}")),
+                });
             }
             v
         })
     };
+    if c.abort_half && !c.raw_threads {
+        // after the cancellations every input is evaluated again on the same ruleset, one after the other: outcomes and
+        // invocations are those of an evaluation that follows nothing
+        for k in 0..c.n {
+            log.lock().unwrap().clear();
+            let out = catch(|| detach(rt.block_on(rs.evaluate_value(&facts_for(c, k))).expect("evaluate_value")))
+                .map_err(|p| Issue::new("threads:panic", format!("evaluation after cancellations panicked: {p}; {}", case_json(c))))?;
+            let mine = attributed(&log.lock().unwrap(), if c.same_input { 0 } else { k });
+            if !same_outs(&out, &baselines[k].0) || mine != baselines[k].1 {
+                return Err(Issue::new(
+                    "threads:after-cancellation",
+                    format!(
+                        "after other evaluations of the shared ruleset were cancelled midway, evaluation {k} gives {:?} with invocations {:?}; on a ruleset without that history {:?} with {:?}; {}",
+                        out.iter().map(|(n, v)| format!("{n}={}", v.as_ref().map(show_value).unwrap_or_else(|e| format!("Err({e})")))).collect::<Vec<_>>(),
+                        mine,
+                        baselines[k].0.iter().map(|(n, v)| format!("{n}={}", v.as_ref().map(show_value).unwrap_or_else(|e| format!("Err({e})")))).collect::<Vec<_>>(),
+                        baselines[k].1,
+                        case_json(c)
+                    ),
+                ));
+            }
+        }
+        return Ok(());
+    }
     if ov.max.load(Ordering::SeqCst) >= 2 {
         overlap_seen.fetch_add(1, Ordering::Relaxed);
     }
     let log = log.lock().unwrap().clone();
+    if c.same_input {
+        // equal arguments in flight at the same time: in total, n x repeat times what one evaluation invokes
+        let mut want = vec![];
+        for _ in 0..c.n * c.repeat {
+            want.extend(baselines[0].1.clone());
+        }
+        want.sort();
+        // (as everywhere in this check: the invocations whose argument carries the input's id)
+        let got = attributed(&log, 0);
+        if got != want {
+            return Err(Issue::new(
+                "threads:invocations-differ",
+                format!("{} concurrent evaluations of one input made {} invocations, one after another they make {}; {}", c.n * c.repeat, got.len(), want.len(), case_json(c)),
+            ));
+        }
+    }
     for (k, r) in results.iter().enumerate() {
         let outs = match r {
             Ok(o) => o,
@@ -329,7 +398,7 @@ fn check(rt: &tokio::runtime::Runtime, c: &Case, overlap_seen: &AtomicUsize) -> 
             want.extend(baselines[k].1.clone());
         }
         want.sort();
-        if attributed(&log, k) != want {
+        if !c.same_input && attributed(&log, k) != want {
             return Err(Issue::new(
                 "threads:invocations-differ",
                 format!(
